@@ -1,5 +1,5 @@
 """Running Coq from the harness: build, property-file check, case evaluation."""
-import fcntl, os, re, subprocess, time, glob
+import fcntl, os, re, shutil, subprocess, time, glob
 
 VERIF = os.path.dirname(os.path.dirname(os.path.abspath(__file__)))
 COQ = os.path.join(VERIF, "coq")
@@ -140,10 +140,11 @@ def check_props(module, timeout=600):
 
 def run_cases(tag, imports, terms, shard=400, timeout=900, jobs=16):
     """terms: list of (id:int, coq_bool_term:str).  Returns (bad_ids, seconds, n_files)."""
-    d = os.path.join(BUILD, tag)
+    # one scratch directory per process, so that concurrent runs of the same check do not collide
+    d = os.path.join(BUILD, tag, f"cases.{os.getpid()}")
+    if os.path.isdir(d):
+        shutil.rmtree(d, ignore_errors=True)
     os.makedirs(d, exist_ok=True)
-    for p in glob.glob(os.path.join(d, "cases_*")):
-        os.remove(p)
     files = []
     # shard by count and by size (<= ~1 MB of text per file)
     cur, cur_sz, shards = [], 0, []
@@ -194,12 +195,13 @@ def run_cases(tag, imports, terms, shard=400, timeout=900, jobs=16):
         body = m.group(1).replace("%Z", "")
         ids = re.findall(r"-?\d+", body)
         bad.extend(int(x) for x in ids)
+    shutil.rmtree(d, ignore_errors=True)
     return bad, time.time() - t, len(files)
 
 
 def eval_term(tag, imports, term, timeout=300):
     """Evaluate one term with vm_compute and return Coq's printed answer (for diagnosis)."""
-    d = os.path.join(BUILD, tag)
+    d = os.path.join(BUILD, tag, f"show.{os.getpid()}")
     os.makedirs(d, exist_ok=True)
     fn = os.path.join(d, "show.v")
     with open(fn, "w") as f:
